@@ -9,5 +9,6 @@ CONSTANTS
   SectorSize = 1024
   MaxFaults = 0
   MaxRetry = 0
+  Session = FALSE
 CONSTRAINT Done
 CHECK_DEADLOCK FALSE
